@@ -236,6 +236,19 @@ func exactKeys(raw []byte, t reflect.Type) []byte {
 	return raw
 }
 
+// shadowTool is a typed tool whose input and output types are declared locally under the names of the
+// package-level inBasic / outBasic: distinct Go types with the same package path and name.
+func shadowTool() goTool {
+	type inBasic struct {
+		Label string `json:"label"`
+		N     int    `json:"n,omitempty"`
+	}
+	type outBasic struct {
+		Echo string `json:"echo"`
+	}
+	return mk[inBasic, outBasic]("shadow", nil, nil)
+}
+
 var goTools = map[string]goTool{}
 var goToolNames, goToolWeighted []string
 
@@ -256,12 +269,13 @@ func init() {
 	addGo(mk[*inBasic, float64]("ptrin", nil, nil))
 	addGo(mk[inPtr, *inner]("ptrout2", nil, nil))
 	addGo(mk[inBasic, outBasic]("openbasic", json.RawMessage(inBasicOpenSchema), nil))
+	addGo(shadowTool())
 	for n := range goTools {
 		goToolNames = append(goToolNames, n)
 	}
 	sort.Strings(goToolNames)
 	// The pairs whose outputs can violate their schema get more weight.
-	goToolWeighted = append(append([]string{}, goToolNames...), "dflt", "dflt", "anyfield", "ptrs", "ptrout2", "openbasic", "openbasic")
+	goToolWeighted = append(append([]string{}, goToolNames...), "dflt", "dflt", "anyfield", "ptrs", "ptrout2", "openbasic", "openbasic", "shadow", "shadow", "basic")
 }
 
 type pubSchemas struct {
